@@ -2481,6 +2481,86 @@ fn draw_check(
     }
 }
 
+/// (c4) chains of nested composites: root composite -> composite -> ... -> simple glyph, depth 2..4,
+/// every level with 1 or 2 components (the nested one first or second) and with component-offset
+/// deltas that are absent / dense / sparse, distinct per level.
+fn nested_family(run: &Run) {
+    let tents = tents_1axis();
+    let tri: Vec<(i64, i64)> = vec![(10, 0), (110, 7), (60, 93)];
+    let sq: Vec<(i64, i64)> = vec![(20, 10), (80, 10), (80, 70), (20, 70)];
+    let g0 = VGlyph::Simple(GlyphSpec {
+        coords: tri,
+        ends: vec![2],
+        tol2: 0,
+        tuples: vec![TupleSpec {
+            region: tents[0].clone(),
+            deltas: (0..7).map(|i| if i < 3 { (6 * i as i16 - 5, 9 - 4 * i as i16, true) } else if i == 3 { (3, 0, true) } else { (0, 0, true) }).collect(),
+        }],
+    });
+    let g1 = VGlyph::Simple(GlyphSpec { coords: sq, ends: vec![3], tol2: 0, tuples: vec![] });
+    let plain = |gid: u16, ox: i16, oy: i16| CompSpec { gid, ox, oy, xf: IDENTITY, use_my_metrics: false, round_xy: false, unscaled_offset: false };
+    let mut fonts: Vec<CFont> = vec![];
+    for depth in 2usize..=4 {
+        // per level: shape in 0..3 (1 component / nested first of 2 / nested second of 2),
+        //            delta kind in 0..3 (none / dense / sparse)
+        let mut digits = vec![0usize; depth];
+        loop {
+            let mut glyphs = vec![g0.clone(), g1.clone()];
+            for (lvl, d) in digits.iter().enumerate() {
+                let (shape, kind) = (d % 3, d / 3);
+                let child = if lvl == 0 { 0u16 } else { (1 + lvl) as u16 };
+                let nested = plain(child, 30 + 100 * lvl as i16, 10 - 7 * lvl as i16);
+                let other = plain(if lvl % 2 == 0 { 1 } else { 0 }, 400 + 50 * lvl as i16, -20);
+                let comps = match shape {
+                    0 => vec![nested],
+                    1 => vec![nested, other],
+                    _ => vec![other, nested],
+                };
+                let nc = comps.len();
+                let nested_ix = if shape == 2 { 1 } else { 0 };
+                let k = 5 + 4 * lvl as i16;
+                let region = tents[lvl % 2].clone();
+                let tuples = match kind {
+                    0 => vec![],
+                    // every entry carried
+                    1 => vec![TupleSpec {
+                        region,
+                        deltas: (0..nc + 4).map(|i| if i < nc { (7 * k + 2 * i as i16, -3 * k - i as i16, true) } else if i == nc { (k, 0, true) } else { (0, 0, true) }).collect(),
+                    }],
+                    // only the nested component carries a delta; the rest is zero and optional
+                    _ => vec![TupleSpec {
+                        region,
+                        deltas: (0..nc + 4).map(|i| if i == nested_ix { (-9 * k, 5 * k + 1, true) } else { (0, 0, false) }).collect(),
+                    }],
+                };
+                glyphs.push(VGlyph::Composite { comps, tuples });
+            }
+            fonts.push(CFont { glyphs, axis_count: 1 });
+            if !next_digits(&mut digits, 9) {
+                break;
+            }
+        }
+    }
+    run.count("c4.fonts", fonts.len() as u64);
+    run.bound("c4.chain_depths", json!([2, 3, 4]));
+    run.bound("c4.per_level", json!("components {1, 2 with the nested one first, 2 with it second} x component-offset deltas {none, dense, sparse (nested component only)}; values distinct per level; regions alternate peak-only 1.0 / intermediate (0.25, 0.5, 1.0)"));
+    run.bound("c4.locations", json!([0.0, 0.5, 1.0]));
+    let locs: Vec<Vec<i16>> = vec![vec![0], vec![ONE / 2], vec![ONE]];
+    let locals: Vec<Local> = fonts
+        .par_iter()
+        .map(|f| {
+            let mut l = Local::new();
+            // every composite of the chain is drawn as a root of its own
+            let draw: Vec<u32> = (2..f.glyphs.len() as u32).collect();
+            check_cfont(run, f, &draw, &locs, false, &mut l);
+            l
+        })
+        .collect();
+    for l in locals {
+        l.merge(run, "c4");
+    }
+}
+
 fn composite_family(run: &Run) {
     // glyph 0: triangle, glyph 1: square (simple, each with its own variations);
     // glyph 2: composite of 0 and 1; glyph 3: composite of 2 (nested) and 0
@@ -2717,4 +2797,5 @@ fn body(run: &Run, replay: Option<&Value>) {
     application_family(run);
     sparse_run_family(run);
     composite_family(run);
+    nested_family(run);
 }
